@@ -129,6 +129,7 @@ def run(chk):
             chk.diverge({"clause": clause, "src": "default-registry", "observed": e.get("kind")}, {k: v for k, v in e.items() if k != "sp"})
     chk.mark("default-registry")
     offsets_and_deltas(chk)
+    canonical_sweep(chk, rng, 6000 if chk.tier == "thorough" else 1500)
     return chk.finish(
         rule="cases = (registry of the MC_C08 family, string of length <= 3) resolved through five entry points in two lookup orders and "
              "case-insensitively; distinct by (registry, string); non-trivial = the string has a reading; plus prefix x spelling x plural "
@@ -216,6 +217,24 @@ def drive_default(chk, rng, thorough):
                 if a[0] == "ok" and a != b:
                     chk.diverge({"clause": "case-insensitive-changes-exact-spelling", "class": "non-ascii", "src": "default-registry"},
                                 {"string": s_, "case_sensitive": a, "case_insensitive": b})
+        # the same spelling inside a unit expression (parse_units / Quantity) is the unit get_name reports, character for character -
+        # no Unicode normalisation may fold it into another spelling (U+210E PLANCK CONSTANT is not the letter h)
+        try:
+            want_name = fresh.get_name(sp_)
+        except Exception:
+            want_name = None
+        if want_name is not None:
+            for fn, call in (("parse_units", lambda: dict((1 * fresh.parse_units(sp_)).unit_items())), ("Quantity", lambda: dict(fresh.Quantity(2, sp_).unit_items())),
+                             ("parse_expression", lambda: dict(fresh.parse_expression("3 " + sp_).unit_items()))):
+                chk.case(("nonascii-in-expression", sp_, fn))
+                try:
+                    got = call()
+                except Exception as e:
+                    got = "EXC:" + type(e).__name__
+                if got == "EXC:OffsetUnitCalculusError" and fn == "parse_expression":
+                    continue                  # "3 degC": a number times an offset unit is refused (C06)
+                if got != {want_name: 1} and not want_name.startswith("delta_") and got != {"delta_" + want_name: 1}:
+                    chk.diverge({"clause": "spelling-in-expression-differs", "class": "non-ascii", "form": fn}, {"string": sp_, "get_name": want_name, "observed": repr(got)})
         for fn in ("get_symbol", "get_name"):
             try:
                 a = getattr(fresh, fn)(sp_)
@@ -268,6 +287,46 @@ def offsets_and_deltas(chk):
             continue
         if got != (name, sym):
             chk.diverge({"clause": "canonical-name-symbol"}, {"string": s, "expected": [name, sym], "observed": list(got)})
+
+
+def canonical_sweep(chk, rng, n):
+    """the canonical name and the symbol reported for an accepted spelling are those of the definitions: prefix name + unit name, and
+    prefix symbol + unit symbol (a unit without a symbol of its own contributes its name) - computed from the reader's tables"""
+    import pint
+    u = pint.UnitRegistry()
+    R, T = defreg.table()
+    usp, psp = defreg._cache["sp"][0], defreg._cache["sp"][1]
+    canon, spell, prefixes = defreg.pools()
+    pool = [(p_, s_, suf) for p_ in [""] + prefixes for s_ in ("bit", "bar", "torr", "meter", "byte", "B", "gram", "second", "Hz", "fortnight", "month", "Pa", "liter", "L", "eV", "watt_hour")
+            for suf in ("",)]
+    pool += [(rng.choice([""] + prefixes), rng.choice(spell), rng.choice(["", "", "s"])) for _ in range(n)]
+    seen = set()
+    for p_, s_, suf in pool:
+        text = p_ + s_ + suf
+        if text in seen or not text.isidentifier():
+            continue
+        seen.add(text)
+        rd = defreg.readings(text)
+        if len(rd) != 1:
+            continue                                   # ambiguous or not a unit: resolution order is checked elsewhere
+        (pn, cn), = rd
+        if cn.startswith("delta_") or cn not in R["units"]:
+            continue
+        if len(defreg.readings(cn)) > 1 or (suf and len(s_) < 3):
+            # (a defined name that also reads as prefix + unit of equal value - kilometer_per_second = kilo + meter_per_second - is
+            #  deliberately reported through the prefixed reading by pint's candidate de-duplication; very short stems take no plural s)
+            continue
+        pd = R["prefixes"].get(pn) if pn else None
+        want = (pn + cn, ((pd["symbol"] or pn) if pd else "") + (R["units"][cn]["symbol"] or cn))
+        chk.case(("canonical-sweep", text))
+        try:
+            got = (u.get_name(text), u.get_symbol(text))
+        except Exception as e:
+            chk.diverge({"clause": "canonical-raises", "exc": type(e).__name__}, {"string": text})
+            continue
+        if got != want:
+            chk.diverge({"clause": "canonical-name-symbol", "which": "name" if got[0] != want[0] else "symbol", "prefixed": bool(pn), "unit_has_symbol": bool(R["units"][cn]["symbol"])},
+                        {"string": text, "expected": list(want), "observed": list(got)})
 
 
 def replay(chk, rec):
